@@ -16,6 +16,7 @@ import (
 func init() { register("C12", checkC12) }
 
 type c12proc struct {
+	stress  bool // few inputs, many goroutines, many repetitions
 	id      int
 	race    bool
 	conc    *plan.Conc
@@ -130,6 +131,75 @@ func (e *Env) buildConcPlan(id int) *c12proc {
 	return p
 }
 
+// buildStressPlan: a small pool of calls shared by all goroutines and repeated
+// many times — among them the same sentence validated under the language it
+// belongs to and queried under another one, the same seed arguments, the same
+// entropy under several languages, the same unsupported Language values.
+func (e *Env) buildStressPlan(id, loops int) *c12proc {
+	r := rng.New(e.Seed, "C12-stress-"+itoa(id))
+	m := e.Model
+	pairs := [][2]int{{2, 7}, {0, 1}, {5, 6}, {3, 4}, {8, 9}, {2, 3}, {1, 0}, {7, 9}}
+	l1, l2 := pairs[id%len(pairs)][0], pairs[id%len(pairs)][1]
+	size := ref.EntSizes[id%5]
+	e1, e2 := r.Bytes(size), r.Bytes(ref.EntSizes[(id+2)%5])
+	m1, m2 := m.Enc(e1, l1), m.Enc(e2, l2)
+	spaced := func(s string, l int) string { return strings.ReplaceAll(s, ref.Sep(l), " ") }
+	bad := strings.Split(spaced(m1, l1), " ")
+	bad[len(bad)-1] = m.List[l1][m.Index[l1][bad[len(bad)-1]]^1]
+	pool := []plan.Op{
+		{Fn: "chk", L: int64(l1), S: hxs(m1)},
+		{Fn: "chk", L: int64(l2), S: hxs(m2)},
+		{Fn: "chk", L: int64(l2), S: hxs(m1)}, // a sentence of l1 asked under l2
+		{Fn: "chk", L: int64(l1), S: hxs(m2)},
+		{Fn: "val", L: int64(l1), S: hxs(m1)},
+		{Fn: "val", L: int64(l2), S: hxs(m1)},
+		{Fn: "chkval", L: int64(l1), S: hxs(spaced(m1, l1))},
+		{Fn: "chkval", L: int64(l2), S: hxs(spaced(m2, l2))},
+		{Fn: "chk", L: int64(l1), S: hxs(strings.Join(bad, " "))},
+		{Fn: "chk", L: int64((l1 + 5) % ref.NLang), S: hxs(m1)},
+		{Fn: "enc", L: int64(l1), E: hx(e1)},
+		{Fn: "enc", L: int64(l2), E: hx(e1)},
+		{Fn: "enc", L: int64(l1), E: hx(e2)},
+		{Fn: "enc", L: int64(l2), E: hx(e2)},
+		{Fn: "str", L: 1000},
+		{Fn: "str", L: 1001},
+		{Fn: "str", L: -5},
+		{Fn: "str", L: int64(l1)},
+		{Fn: "str", L: int64(l2)},
+		{Fn: "new", L: int64(l1), N: 12},
+		{Fn: "new", L: int64(l2), N: 24},
+	}
+	seeds := []plan.Op{
+		{Fn: "seed", S: hxs(m1), P: hxs("p1")},
+		{Fn: "seed", S: hxs(m1), P: hxs("p2")},
+		{Fn: "seed", S: hxs(m2), P: hxs("p1")},
+	}
+	p := &c12proc{id: 100000 + id, stress: true}
+	p.conc = &plan.Conc{GoMaxProcs: []int{16, 4, 8, 2}[id%4], Loops: loops}
+	G := []int{16, 8, 12}[id%3]
+	for w := 0; w < G; w++ {
+		var ops []plan.Op
+		n := 6 + r.Intn(6)
+		// the first four pool entries (own-language and cross-language queries of the
+		// same two sentences) are in every worker's list, in a rotated order
+		for k := 0; k < 4; k++ {
+			ops = append(ops, pool[(k+w)%4])
+		}
+		for k := 0; k < n; k++ {
+			ops = append(ops, pool[r.Intn(len(pool))])
+		}
+		if w%4 == 0 {
+			ops = append(ops, seeds[r.Intn(len(seeds))])
+		}
+		for i := range ops {
+			ops[i].I = i
+		}
+		p.conc.Workers = append(p.conc.Workers, ops)
+	}
+	p.langs = []int{l1, l2}
+	return p
+}
+
 var raceFrameRe = regexp.MustCompile(`(?m)^\s+(\S+)\(.*\)\n\s+(\S+):(\d+)`)
 
 // raceBlocks splits a race log into report blocks.
@@ -160,10 +230,7 @@ func raceSignature(block string) string {
 
 func checkC12(e *Env) {
 	raceDrv := e.BuildDrv(true)
-	plainDrv := ""
-	if e.Thorough() {
-		plainDrv = e.BuildDrv(false)
-	}
+	plainDrv := e.BuildDrv(false)
 	nproc := e.pick(48, 1200)
 	var mu sync.Mutex
 	obs := newCounter()
@@ -224,8 +291,27 @@ func checkC12(e *Env) {
 		}
 		// index results by (worker, i)
 		byWorker := make([][]plan.Res, len(p.conc.Workers))
+		var aggregated []plan.Res
 		for _, r := range cr.Results {
+			if r.Agg > 0 {
+				aggregated = append(aggregated, r)
+				continue
+			}
 			byWorker[r.G] = append(byWorker[r.G], r)
+		}
+		// observations of the repeated passes: one sample per distinct result and op
+		for i := range aggregated {
+			r := &aggregated[i]
+			op := &p.conc.Workers[r.G][r.I]
+			obs.Add("stress_calls_in_repeated_passes", r.Agg)
+			if r.Panic != "" {
+				viol(fmt.Sprintf("worker %d %s panicked in a repeated pass: %s", r.G, fnName(op.Fn), oneLine(r.Panic, 300)), r)
+				return
+			}
+			if why := e.judgeAgainstRef(op, r, e.refEval(op)); why != "" {
+				viol(fmt.Sprintf("worker %d, %s(lang %d) repeated under contention, returned in %d of its calls something it does not return when run alone: %s", r.G, fnName(op.Fn), op.L, r.Agg, why), map[string]any{"op": op, "observed": r})
+				return
+			}
 		}
 		// goroutine ids for the shared source's read log
 		gidOf := map[int64]int{}
@@ -317,6 +403,18 @@ func checkC12(e *Env) {
 			}
 			mu.Unlock()
 		}
+		if p.stress {
+			mu.Lock()
+			totalOps += len(cr.Results)
+			goroutines += len(p.conc.Workers)
+			mu.Unlock()
+			obs.Inc("processes")
+			obs.Inc("stress_processes")
+			if useRace {
+				obs.Inc("processes_under_race_detector")
+			}
+			return
+		}
 		// 3. the same op lists replayed sequentially in another fresh process
 		var seq []plan.Op
 		for _, ops := range p.conc.Workers {
@@ -363,10 +461,20 @@ func checkC12(e *Env) {
 	parallel(nproc, max(2, e.Workers/4), func(i int) {
 		p := e.buildConcPlan(i)
 		useRace := true
-		if e.Thorough() && i%2 == 1 {
+		if (e.Thorough() && i%2 == 1) || i%8 == 7 {
 			useRace = false // without the detector an unsynchronised map build dies or answers wrongly
 		}
 		judge(p, useRace)
+	})
+
+	// stress processes: few inputs, many goroutines, many repetitions
+	nstress := e.pick(8, 96)
+	parallel(nstress, max(2, e.Workers/4), func(i int) {
+		if i%4 == 3 {
+			judge(e.buildStressPlan(i, e.pick(120, 300)), true)
+		} else {
+			judge(e.buildStressPlan(i, e.pick(1500, 4000)), false)
+		}
 	})
 
 	sigs := make([]string, 0, len(raceSigs))
@@ -380,7 +488,7 @@ func checkC12(e *Env) {
 	e.WriteEvidence("exploration", map[string]any{
 		"evaluations":                   totalOps,
 		"distinct_nontrivial":           states.Len(),
-		"rule":                          "a case is one cold-start process: G in {2,4,8,16,64} goroutines released by one barrier run seed-chosen op lists (CheckMnemonic/IsMnemonicValid on a contended subset of languages, every language at least twice per goroutine, mixed with NewMnemonicByEntropy, NewMnemonic on the default source or on a shared mutex-protected scripted source installed before the goroutines start, MnemonicToSeed, Language.String, unsupported languages), GOMAXPROCS in {1,2,4,16}, half of the processes with simultaneous first uses and half with staggered late first users; oracles: Go race detector (reports read from log files, de-duplicated by stack signature), per-call reference model, exactly-once accounting of shared-source bytes per goroutine, and sequential replay of the same op lists in another fresh process; non-trivial and distinct = distinct (language, cold-overlap degree, goroutine count, staggered) states observed, where the overlap degree is the number of goroutines whose first call on the language began before the first such call returned",
+		"rule":                          "a case is one cold-start process: G in {2,4,8,16,64} goroutines released by one barrier run seed-chosen op lists (CheckMnemonic/IsMnemonicValid on a contended subset of languages, every language at least twice per goroutine, mixed with NewMnemonicByEntropy, NewMnemonic on the default source or on a shared mutex-protected scripted source installed before the goroutines start, MnemonicToSeed, Language.String, unsupported languages), GOMAXPROCS in {1,2,4,16}, half of the processes with simultaneous first uses and half with staggered late first users; plus stress processes in which 8-16 goroutines repeat a small shared pool of calls 120-4000 times (the same sentence validated under its own language and queried under another, identical seed arguments, the same entropy under several languages, the same unsupported Language values), every distinct observation of which is compared with the reference; oracles: Go race detector (reports read from log files, de-duplicated by stack signature), per-call reference model, exactly-once accounting of shared-source bytes per goroutine, and sequential replay of the same op lists in another fresh process; non-trivial and distinct = distinct (language, cold-overlap degree, goroutine count, staggered) states observed, where the overlap degree is the number of goroutines whose first call on the language began before the first such call returned",
 		"samples":                       smp.List(),
 		"processes":                     obs.Get("processes"),
 		"goroutines":                    goroutines,
